@@ -582,8 +582,16 @@ func (w *worker) batchDelete(cl *s3c.Client, variant, bucket string, keys []stri
 				}
 			}
 		}
+		committed := map[string]bool{}
+		for _, d := range res.Deleted {
+			committed[d.Key] = true
+		}
 		for _, e := range res.Error {
 			w.rd.c.Observe("DeleteObjects reported a per-key error: " + e.Code)
+			if committed[e.Key] {
+				// the key was named twice and its other entry committed: that change is expected above, exactly once
+				continue
+			}
 			for _, n := range allowedNames("batch-delete", true) {
 				w.failed[triple{bucket, e.Key, n}] = rec
 			}
@@ -731,16 +739,37 @@ func (w *worker) scenario(s slot) {
 				keys = append(keys[:at], append([]string{d + "/"}, keys[at:]...)...)
 			}
 		}
+		// versioned bucket: a key whose entry names no version (if the batch has one) is named a second time with a
+		// well-formed version id that does not exist. That entry fails for itself (Errors), the other one commits a delete
+		// marker: exactly one notification for the key, carrying the marker's id
+		twice, twiceAt := "", -1
+		if v == "ok" && w.versioned {
+			for _, k := range keys {
+				if w.batchVids[k] == "" && !strings.HasSuffix(k, "/") {
+					twice, twiceAt = k, w.rng.Intn(len(keys)+1)
+					break
+				}
+			}
+		}
 		switch v {
 		case "ok":
 			var sb strings.Builder
 			sb.WriteString(`<Delete xmlns="http://s3.amazonaws.com/doc/2006-03-01/">`)
-			for _, k := range keys {
+			for i, k := range keys {
+				if i == twiceAt {
+					sb.WriteString("<Object><Key>" + s3c.XMLEsc(twice) + "</Key><VersionId>01ARZ3NDEKTSV4RRFFQ69G5FAV</VersionId></Object>")
+				}
 				sb.WriteString("<Object><Key>" + s3c.XMLEsc(k) + "</Key>")
 				if vid := w.batchVids[k]; vid != "" {
 					sb.WriteString("<VersionId>" + vid + "</VersionId>")
 				}
 				sb.WriteString("</Object>")
+			}
+			if twiceAt == len(keys) {
+				sb.WriteString("<Object><Key>" + s3c.XMLEsc(twice) + "</Key><VersionId>01ARZ3NDEKTSV4RRFFQ69G5FAV</VersionId></Object>")
+			}
+			if twice != "" {
+				w.rd.c.Add("batch_deletes_naming_one_key_twice", 1)
 			}
 			sb.WriteString(`</Delete>`)
 			w.batchDelete(w.root, v, b, keys, []byte(sb.String()))
